@@ -7,6 +7,7 @@ import (
 	"os"
 	"path/filepath"
 	"text/template"
+	"unicode/utf8"
 
 	"github.com/gardenbed/charm/ui"
 	auto "github.com/moorara/algo/automata"
@@ -316,7 +317,13 @@ func formatRunes(runes []rune) string {
 	var b bytes.Buffer
 
 	for _, r := range runes {
-		fmt.Fprintf(&b, "%q, ", r)
+		if utf8.ValidRune(r) {
+			fmt.Fprintf(&b, "%q, ", r)
+		} else {
+			// A symbol that is not a Unicode code point (a surrogate half, a value beyond U+10FFFF) has no character literal:
+			// %q would print the replacement character U+FFFD for each of them.
+			fmt.Fprintf(&b, "%#x, ", r)
+		}
 	}
 
 	if len(runes) > 0 {
